@@ -7,6 +7,11 @@ PROOF_NOTE = ("Trusted: Lean 4.33 kernel with axioms propext/Classical.choice/Qu
               "/repo's working tree by the differential correspondence run of the Rust harness (bounded, sampled); ")
 
 CLAIMED = {
+    "C06": dict(
+        text="Machine-checked proof that the model of find_global (global tree built by extract_into_tree, segment walk with explicit-before-`*`, struct switch, any short-circuit, implicit read-only prefixes) equals the documented resolution defined directly on the flat key map, for every library and every query path; that global_has_fields is `some key starts with the root`; that lookup never panics when struct references are closed; and that assignment targets are judged independently of position. Tied to the code by differential runs of find_global / global_has_fields and of the real lint on generated libraries, paths and assignments.",
+        note=PROOF_NOTE + "keys are modelled as segment lists (no '.' inside a queried name); the scope-resolution gate is an input flag here (C01/C07).",
+        technique="Lean 4 refinement proof trie-walk = prefix specification (C06_find via fieldAt_insertSegs / fieldAt_fold / walkTree_eq) + correspondence with find_global and the lint",
+        design="§4 C06"),
     "C15": dict(
         text="Machine-checked proof (Lean 4) that the model of StandardLibrary::extend / base chains / `+` folds answers every key and lua_versions as the property states, for all libraries and chain lengths; the model is tied to the code by differential runs on generated pairs, chains and the shipped built-in chains.",
         note=PROOF_NOTE + "file-system resolution of library names and serde_yaml are outside the model.",
@@ -41,7 +46,7 @@ def main():
     na = [{"property_id": pid, "reason": "not claimed yet: model, theorems and correspondence check for this property are still under construction (see DESIGN.md §7 order of work); the technique applies"} for pid in ALL if pid not in CLAIMED]
     m = {
         "version": 1,
-        "setup_cmd": "cd /verif/lean && lake build Selene selene_model && cd /verif/harness && cp -n /repo/Cargo.lock Cargo.lock; CARGO_NET_OFFLINE=true cargo build --offline",
+        "setup_cmd": "python3 /verif/tools/translate.py && cd /verif/lean && lake build Selene selene_model && cd /verif/harness && cp -n /repo/Cargo.lock Cargo.lock; CARGO_NET_OFFLINE=true cargo build --offline",
         "hooks": {
             "guard": "cargo feature `verif-hooks` (selene-lib/verif-hooks, selene/verif-hooks)",
             "enable": "harness depends on selene-lib with features=[\"verif-hooks\"]; CLI built with `cargo build --workspace --features selene/verif-hooks`",
